@@ -163,6 +163,7 @@ type ReplayFile struct {
 	World      string              `json:"world"`
 	Tier       string              `json:"tier,omitempty"`
 	Seed       uint64              `json:"seed"`
+	SeedOnly   bool                `json:"seed_only,omitempty"` // replay = run the seed again (no choice vector could be recorded: the process died)
 	Choices    map[string][]uint32 `json:"choices"`
 	Class      string              `json:"violation_class"`
 	Detail     string              `json:"detail,omitempty"`
